@@ -35,6 +35,7 @@ type bufRun struct {
 	pendClC   map[int]*bufOp
 	pendOther map[int]int // operations issued on a consumer while one of its Gets is parked (they wait for its mutex)
 	pendOps   map[int][]*bufOp
+	batch     []interface{} // caller-owned batch slice reused across Puts
 	pendClB   *bufOp
 	nextVal   int
 	delta     []int // harness-side belief of uncommitted reads (heuristic for generation only)
@@ -172,7 +173,16 @@ func (r *bufRun) record(id string, cfg []int) {
 }
 
 func (r *bufRun) put(n int, cancelled bool) {
+	// In a third of the Puts the values are passed as a caller-owned, REUSED slice with spare capacity that is
+	// overwritten right after Put returns (legal for a variadic parameter): the library must have copied them.
+	reuse := r.h.rng.Intn(3) == 0 && n > 0
+	if r.batch == nil {
+		r.batch = make([]interface{}, 0, 16)
+	}
 	vals := make([]interface{}, n)
+	if reuse {
+		vals = r.batch[:n]
+	}
 	op := []int{0, n}
 	if cancelled {
 		op[0] = 1
@@ -188,7 +198,18 @@ func (r *bufRun) put(n int, cancelled bool) {
 		cancel()
 		ctx = c
 	}
-	r.exec(op, func() []int { return errOut(r.b.Put(ctx, vals...)) })
+	r.exec(op, func() []int {
+		err := r.b.Put(ctx, vals...)
+		if reuse {
+			for i := range r.batch[:cap(r.batch)] {
+				r.batch[:cap(r.batch)][i] = -7 // never a put value: visible if the library kept the caller's memory
+			}
+		}
+		return errOut(err)
+	})
+	if reuse {
+		r.h.count("put_reused_caller_slice", 1)
+	}
 }
 
 func (r *bufRun) newConsumer() {
